@@ -137,16 +137,18 @@ inductive Packet
 
 def bit (x k : Nat) : Bool := x / 2 ^ k % 2 = 1
 
+/-- `if c.Version == Version5 { c.WillProperties.UnpackWillProperties(bufr) }` -/
+def unpackWillPropsStep (c : Connect) (w1 : Bytes) : Except Err (Option Props × Bytes) :=
+  if c.version = v5 then
+    match unpackProps none w1 with
+    | .error e => .error e
+    | .ok (ps, r) => .ok (some ps, r)
+  else .ok (c.wprops, w1)
+
 /-- the `if c.WillFlag { … }` block of `unpackPayload` -/
 def unpackWillPart (c : Connect) (w1 : Bytes) : Except Err (Connect × Bytes) :=
   if c.willFlag then
-    let wp : Except Err (Option Props × Bytes) :=
-      if c.version = v5 then
-        match unpackProps none w1 with
-        | .error e => .error e
-        | .ok (ps, r) => .ok (some ps, r)
-      else .ok (c.wprops, w1)
-    match wp with
+    match unpackWillPropsStep c w1 with
     | .error e => .error e
     | .ok (wps, w2) =>
       match readStr true w2 with
